@@ -41,8 +41,80 @@ _SNAP = [(s, dict(vars(s))) for s in _SENSORS]
 _TX0 = gp._modbus_tcp_tx
 
 
+def _generic_snapshot():
+    """Every module-level and class-level attribute of the goodwe package as it was at import time.
+
+    State that leaks from one explored execution into the next would hide exactly the defects that need a second
+    object or an earlier call to show (a class-level cache filled by the solo run makes the interleaved run look the
+    same), and would make replays irreproducible.  Mutable containers are restored IN PLACE (references held elsewhere
+    stay valid), scalars are re-bound, attributes that did not exist are deleted, functools caches are cleared."""
+    import types
+    mods = [m for n, m in sys.modules.items() if (n == 'goodwe' or n.startswith('goodwe.')) and m is not None]
+    owners = list(mods)
+    for m in mods:
+        for v in list(vars(m).values()):
+            if isinstance(v, type) and getattr(v, '__module__', '').startswith('goodwe') and v not in owners:
+                owners.append(v)
+    snap = []
+    for o in owners:
+        names = {}
+        for k, v in list(vars(o).items()):
+            if k.startswith('__') and k.endswith('__'):
+                continue
+            if isinstance(v, (dict, list, set, bytearray)):
+                names[k] = ('c', v, type(v)(v))
+            elif isinstance(v, (int, float, str, bytes, bool, type(None), tuple, frozenset)):
+                names[k] = ('s', v, None)
+            else:
+                names[k] = ('o', v, None)
+        snap.append((o, names))
+    return snap
+
+
+_GEN = _generic_snapshot()
+
+
+def _generic_restore():
+    for o, names in _GEN:
+        cur = vars(o)
+        if len(cur) != len(names) + sum(1 for k in cur if k.startswith('__') and k.endswith('__')):
+            for k in [k for k in cur if k not in names and not (k.startswith('__') and k.endswith('__'))]:
+                try:
+                    delattr(o, k)
+                except (AttributeError, TypeError):
+                    pass
+        for k, (kind, v, copy_) in names.items():
+            now = cur.get(k, _MISSING)
+            if kind == 'c':
+                if now is not v:
+                    try:
+                        setattr(o, k, v)
+                    except (AttributeError, TypeError):
+                        pass
+                if len(v) != len(copy_) or (len(v) <= 64 and v != copy_):
+                    if isinstance(v, dict):
+                        v.clear()
+                        v.update(copy_)
+                    elif isinstance(v, set):
+                        v.clear()
+                        v.update(copy_)
+                    else:
+                        v[:] = copy_
+            elif now is not v:
+                try:
+                    setattr(o, k, v)
+                except (AttributeError, TypeError):
+                    pass
+            if kind == 'o' and hasattr(v, 'cache_clear'):
+                v.cache_clear()
+
+
+_MISSING = object()
+
+
 def reset(tx: int | None = None) -> None:
     """Restore module/class level mutable state to its import-time snapshot."""
+    _generic_restore()
     gp._modbus_tcp_tx = _TX0 if tx is None else tx
     for s, d in _SNAP:
         cur = vars(s)
